@@ -33,6 +33,42 @@ def _would_complete_escape(res, b):
     return res[-2:-1] == b"%" and bytes(res[-1:]) in HEX_BYTES
 
 
+def _flush_escaped_bytes(escaped, res):
+    # `escaped` holds consecutive (byte, original escape) pairs for bytes >= 0x80.
+    # Only well-formed utf-8 sequences standing for printable characters are
+    # decoded: anything else stays escaped, so that no byte is lost.
+    i = 0
+    n = len(escaped)
+
+    while i < n:
+        lead = ord(escaped[i][0])
+
+        if 0xC2 <= lead <= 0xDF:
+            size = 2
+        elif 0xE0 <= lead <= 0xEF:
+            size = 3
+        elif 0xF0 <= lead <= 0xF4:
+            size = 4
+        else:
+            size = 1
+
+        sequence = b"".join(pair[0] for pair in escaped[i : i + size])
+
+        try:
+            char = sequence.decode("utf-8")
+        except UnicodeDecodeError:
+            char = None
+
+        if char is not None and len(char) == 1 and not ("\x80" <= char <= "\x9f"):
+            res.extend(sequence)
+            i += size
+        else:
+            res.extend(escaped[i][1])
+            i += 1
+
+    del escaped[:]
+
+
 def _unquote_impl(string, only_printable=False, unsafe=None):
     string = string.encode("utf-8")
     bits = string.split(b"%")
@@ -40,11 +76,21 @@ def _unquote_impl(string, only_printable=False, unsafe=None):
         return string
     res = bytearray(bits[0])
     append = res.extend
+    escaped = []
 
     for item in bits[1:]:
         b = HEX_TO_BYTE.get(item[:2])
 
         if b is not None:
+            # NOTE: non-ascii bytes are only decoded once we know whether they
+            # form well-formed utf-8 sequences
+            if only_printable and b >= b"\x80":
+                escaped.append((b, b"%" + item[:2]))
+                if len(item) > 2:
+                    _flush_escaped_bytes(escaped, res)
+                    append(item[2:])
+                continue
+            _flush_escaped_bytes(escaped, res)
             if only_printable and (b < b" " or b == b"\x7f"):
                 append(b"%")
                 append(item)
@@ -64,8 +110,11 @@ def _unquote_impl(string, only_printable=False, unsafe=None):
                 append(b)
                 append(item[2:])
         else:
+            _flush_escaped_bytes(escaped, res)
             append(b"%")
             append(item)
+
+    _flush_escaped_bytes(escaped, res)
 
     return res
 
